@@ -28,6 +28,7 @@ struct alignas(64) SimFrame {
         uint64_t out_k[8];      // 320
         uint8_t vec_in[32 * 64];  // 384
         uint8_t vec_out[32 * 64]; // 2432
+        uint64_t out_gpr[9];      // 4480  rdi rsi rdx rcx r8 r9 r10 r11 (+pad) as the callee left them
 };
 static_assert(offsetof(SimFrame, in_callee) == 88, "frame layout");
 static_assert(offsetof(SimFrame, call_rsp) == 136, "frame layout");
@@ -38,6 +39,7 @@ static_assert(offsetof(SimFrame, in_k) == 256, "frame layout");
 static_assert(offsetof(SimFrame, out_k) == 320, "frame layout");
 static_assert(offsetof(SimFrame, vec_in) == 384, "frame layout");
 static_assert(offsetof(SimFrame, vec_out) == 2432, "frame layout");
+static_assert(offsetof(SimFrame, out_gpr) == 4480, "frame layout");
 
 extern "C" uint64_t simcall(SimFrame *f);
 extern "C" SimFrame *g_simframe;
